@@ -393,6 +393,7 @@ func run(c *ev.Ctx) {
 	// (iii) families
 	if c.Shard == 0 {
 		families(c)
+		utf8Family(c)
 	}
 	repetitions(c)
 	// two documents read in turns: every merge of the two call sequences
@@ -566,6 +567,16 @@ func families(c *ev.Ctx) {
 		evalAndReport(c, num+"\n")
 		evalAndReport(c, "["+num+"]")
 		evalAndReport(c, `{"n":`+num+`}`)
+	}
+}
+
+// utf8Family: raw multi-byte characters of every byte-class combination (and DEL) in values and keys.
+func utf8Family(c *ev.Ctx) {
+	for _, ch := range rep.UTF8Chars {
+		for _, t := range rep.UTF8Texts(ch) {
+			evalAndReport(c, t)
+			c.Inc("utf8_family_texts")
+		}
 	}
 }
 
